@@ -383,7 +383,7 @@ def sweep(da, d, rng: random.Random, tier_: str, out: Outcome) -> list[dict[str,
 
     variants_mut = [{'body': 'none'}] + [{'body': b, 'csrf': svc} for b in ('form', 'json', 'query') for svc in ('streams', 'files', 'keys', 'upload')]
     variants_get = [{'body': 'none'}, {'body': 'query', 'csrf': 'files'}]
-    variants_head = [{'body': 'none'}]
+    variants_head = list(variants_get)      # a HEAD request is dispatched to the GET handler: same parameters, same authorisation
     if tier_ == 'quick':
         variants_mut = [{'body': 'none'}] + [{'body': b, 'csrf': svc} for b, svc in
                                              (('form', 'streams'), ('json', 'streams'), ('form', 'keys'), ('query', 'keys'),
